@@ -69,7 +69,8 @@ fn run_image(case: &Case, checked: bool, label: &str, rep: &mut Report) {
         } else {
             classes.push(if r.body.starts_with("E:") { r.body.clone() } else if r.body == "none" { "absent".into() } else { "value".into() });
             // bounded number of device accesses for a query that finished
-            if checked && r.calls > 40_000 {
+            // Props/C13 access_bound: every query stays below 184 801 provider calls, in both build modes
+            if r.calls > 184_801 {
                 eg::fail(rep, "c13/access-bound", &format!("{q} made {} provider calls", r.calls), &line);
             }
             if let Some((cap, sep)) = cap_of(q) {
